@@ -268,6 +268,57 @@ def judge(ctx, dec, wire, klass, wellformed=False, steps=True):
         ctx.report(f'field-differs:{dec}:{d}', f'accepted packet: extracted {d} differs from the strict reading', w)
 
 
+class CountingBytes(bytes):
+    """Instrumented input buffer: counts the octets copied out of it by slicing (a slice of a bytes object is a copy; a
+    decoder that slices the remaining input once per element copies a quadratic volume without executing more bytecode)."""
+    copied = 0
+
+    def __getitem__(self, k):
+        r = bytes.__getitem__(self, k)
+        if isinstance(k, slice):
+            CountingBytes.copied += len(r)
+            return CountingBytes(r)
+        return r
+
+
+class CountingBytearray(bytearray):
+    copied = 0
+
+    def __getitem__(self, k):
+        r = bytearray.__getitem__(self, k)
+        if isinstance(k, slice):
+            CountingBytearray.copied += len(r)
+            return CountingBytearray(r)
+        return r
+
+
+COPY_A, COPY_B = 4, 256
+TL_DECODERS = {'interest': (parse_interest, 5), 'data': (parse_data, 6), 'lp': (parse_lp_packet_v2, 0x64)}
+
+
+def judge_copy(ctx, dec, value, label):
+    """Linear-time clause, second resource: octets copied from the input.  value = the packet without its outer T/L."""
+    fn, outer_t = TL_DECODERS[dec]
+    for cls in (CountingBytes, CountingBytearray):
+        for with_tl in (False, True):
+            buf = cls(rc.enc_tlv(outer_t, value) if with_tl else value)
+            cls.copied = 0
+            try:
+                fn(buf, with_tl=with_tl)
+            except DOCUMENTED:
+                pass
+            except Exception as e:   # noqa
+                ctx.report(f'undocumented-exception:{dec}:{type(e).__name__}@{raising_site(e)[0]}', f'decoder raised {e!r} on a {cls.__name__} input', {'decoder': dec, 'class': label})
+                continue
+            limit = COPY_A * len(buf) + COPY_B
+            ctx.event('copy-monitored')
+            ctx.extra['max_copied_per_byte_x100'] = max(ctx.extra.get('max_copied_per_byte_x100', 0), int(100 * cls.copied / max(1, len(buf) + 64)))
+            ctx.case(('copy', dec, label.split('@')[0], cls.__name__, with_tl), nontrivial=True)
+            if cls.copied > limit:
+                ctx.report(f'copy-budget:{dec}', f'decoding {len(buf)} octets ({cls.__bases__[0].__name__}, with_tl={with_tl}) copied {cls.copied} octets out of the input '
+                           f'(more than {COPY_A}*len+{COPY_B}): not proportional to the input', {'decoder': dec, 'class': label, 'len': len(buf), 'copied': cls.copied})
+
+
 def corpus(ctx, rng):
     """Valid packets: [(decoder, wire)]"""
     out = []
@@ -398,11 +449,21 @@ def run(ctx):
                           ('lp', rc.make_lp(fragment=b'\x00' * n * 3, headers=[(0x3E8, b'')] * n)),
                           ('data', rc.enc_tlv(6, rc.enc_name([b'\x08\x01a']) + rc.enc_tlv(0xF0, b'') * n))):
             judge(ctx, dec, wire, f'large-{n}')
+        for dec, value in (('data', rc.enc_name([b'\x08\x01a']) + rc.enc_tlv(0xF0, b'') * n), ('data', rc.enc_name([b'\x08\x00'] * n) + rc.enc_tlv(0x15, b'c' * n)),
+                           ('interest', rc.enc_name([b'\x08\x01a'] * n) + rc.enc_tlv(0x24, b'x' * n) + rc.enc_tlv(0xF0, b'') * n),
+                           ('lp', rc.enc_tlv(0x3E8, b'') * n + rc.enc_tlv(0x50, b'\x00' * n))):
+            judge_copy(ctx, dec, value, f'large-{n}')
+    for dec, wire in corp:
+        if dec in TL_DECODERS:
+            b0, vs0, ve0 = rc.outer(wire, TL_DECODERS[dec][1])
+            judge_copy(ctx, dec, b0[vs0:ve0], 'valid')
     ctx.need_event('step-monitored')
+    ctx.need_event('copy-monitored')
     for dec in decs:
         ctx.need_event(f'{dec}:acc/acc')
         ctx.need_event(f'{dec}:rej/rej')
     ctx.assumptions = ['critical = odd type number, as the library documents (types <= 31 are not treated as critical)',
                        'legal integer width = 1, 2, 4 or 8 (fixed widths of Nonce/HopLimit not demanded)',
                        'non-minimal var-number encodings are not rejected (not demanded)',
-                       f'linear-time clause = at most {STEP_A}*len+{STEP_B} interpreter events (calibrated ~6/byte on valid packets)']
+                       f'linear-time clause = at most {STEP_A}*len+{STEP_B} interpreter events (calibrated ~6/byte on valid packets) and at most '
+                       f'{COPY_A}*len+{COPY_B} octets copied out of an instrumented bytes/bytearray input (with and without the outer T/L)']
